@@ -484,6 +484,14 @@ def main(ctx):
                               f'still completed (client ok={o.client_ok}, '
                               f'server began auth={o.server_auth_begun})',
                               replay=replay)
+            if o.completed and 'sig' in eff and \
+                    not H.received_signature_ok(o.mitm, o.sid_c):
+                ctx.violation(dict(sig, clause='SignatureVerifies'),
+                              f'{kex}: {label}: the client completed with a '
+                              f'host signature which does not verify over '
+                              f'its session id under the host key it '
+                              f'received (independent verifier)',
+                              replay=replay)
             if o.completed and o.sid_c != o.sid_s:
                 ctx.violation(dict(sig, clause='AgreeOrFail'),
                               f'{kex}: {label}: both sides completed with '
@@ -574,14 +582,15 @@ def main(ctx):
 
     KEXMSGS = ('GREQ', 'GGRP', 'INIT', 'REPLY', 'PUBKEY', 'SECRET', 'DONE')
 
-    def recode_one(kex, ed, cl, sl, chk, shk, names):
+    def recode_one(kex, ed, cl, sl, chk, shk, names, hostkey=None):
         o = H.run_handshake(kex, client=cl, server=sl,
                             edits=[dict(ed)], server_hostkeys=shk,
                             client_hostkey_algs=chk, run_command=False)
         eff = '+'.join(sorted(set(o.effects))) or 'none'
         judge(o, None, kex, names, ed['label'],
               bytelevel=f'{ed["label"]}:{eff}',
-              recipe={'kind': 'recode', 'op': ed['label']})
+              recipe={'kind': 'recode', 'op': ed['label'],
+                      'hostkey': hostkey})
         # only another spelling of the same values (or of the padding) may
         # complete; it must then complete with the same parameters
         model_compare(o, eff in ('harmless', 'recoded'), kex, ed['label'])
@@ -630,10 +639,21 @@ def main(ctx):
             names = names_for(kex, pick_others(kex))
             cl, chk = fixed_lists(names)
             sl, shk = fixed_lists(names)
-            mname = rp['op'].split('.')[0].split(':')[0]
-            ed = [e for e in H.reencoding_edits(mname, H.family(kex))
-                  if e['label'] == rp['op']][0]
-            o = recode_one(kex, ed, cl, sl, chk, shk, names)
+            hk = rp.get('hostkey')
+            if hk:
+                base = H.run_handshake(kex, client=cl, server=sl,
+                                       server_hostkeys=[hk],
+                                       client_hostkey_algs=[hk],
+                                       run_command=False)
+                ed = [dict(e, label=rp['op']) for e in
+                      H.structured_edits(base.mitm.msgs)
+                      if f'{e["label"]} (host key {hk})' == rp['op']][0]
+                chk = shk = [hk]
+            else:
+                mname = rp['op'].split('.')[0].split(':')[0]
+                ed = [e for e in H.reencoding_edits(mname, H.family(kex))
+                      if e['label'] == rp['op']][0]
+            o = recode_one(kex, ed, cl, sl, chk, shk, names, hostkey=hk)
             print(f'replayed {rp["op"]} on {kex}: completed={o.completed} '
                   f'client_error={o.client_exc!r} server={o.server_lost} '
                   f'effects={o.effects} session ids equal='
@@ -879,6 +899,43 @@ def main(ctx):
                            'bytes')
 
     # ---- 4b. re-encodings and boundary values of every field --------------
+    # structured strings (host key blobs, certificates, K_T, signature
+    # blobs): inner elements spelled differently.  K_S and K_T enter the
+    # hash as received: every change must fail.
+    C = H.CERT_SUFFIX
+    combos = [('curve25519-sha256', 'rsa-sha2-256'),
+              ('curve25519-sha256', 'ecdsa-sha2-nistp256'),
+              ('curve25519-sha256', 'rsa-sha2-256' + C),
+              ('curve25519-sha256', 'ssh-ed25519' + C),
+              ('rsa2048-sha256', 'ssh-ed25519'),
+              ('rsa2048-sha256', 'rsa-sha2-256'),
+              ('diffie-hellman-group14-sha256', 'rsa-sha2-256'),
+              ('diffie-hellman-group-exchange-sha256',
+               'ecdsa-sha2-nistp256')]
+    if not quick:
+        combos = [(k, h) for k in main_fams for h in
+                  ('rsa-sha2-256', 'ecdsa-sha2-nistp256', 'ssh-ed25519',
+                   'rsa-sha2-256' + C, 'ssh-ed25519' + C)]
+    for kex, hk in combos:
+        if kex not in avail:
+            continue
+        names = names_for(kex, pick_others(kex))
+        cl, _ = fixed_lists(names)
+        sl, _ = fixed_lists(names)
+        base = H.run_handshake(kex, client=cl, server=sl,
+                               server_hostkeys=[hk], client_hostkey_algs=[hk],
+                               run_command=False)
+        ctx.require(base.completed, f'baseline {kex} with host key {hk} '
+                    f'failed: {base.client_exc!r}')
+        for ed in H.structured_edits(base.mitm.msgs):
+            ed = dict(ed, label=f'{ed["label"]} (host key {hk})')
+            o = recode_one(kex, ed, cl, sl, [hk], [hk], names, hostkey=hk)
+            state['structured'] = state.get('structured', 0) + 1
+    ctx.require(state.get('structured', 0) >= 40,
+                f'structured-string sweep is vacuous: {state}')
+    ctx.notes.append(f'structured strings re-spelled (inner mpints of RSA '
+                     f'host keys / certificates / K_T, nested certificate '
+                     f'blobs, ECDSA r,s): {state["structured"]} handshakes')
     if quick:
         recode_sweep('curve25519-sha256', ('IC', 'IS') + KEXMSGS)
         for kex in main_fams[1:]:
